@@ -10,27 +10,39 @@ From Cffi Require Import C09.Prim C09.Gen C09.Spec C09.Model C09.Proofs C09.Proo
 Open Scope Z_scope.
 Open Scope string_scope.
 
+(* TIES (differential runs of tools/props/c09.py on every ./check C09; a disagreement is reported under these names):
+     [tie-eval]  "C09.Model.py_eval vs cparser._parse_constant"   Gen.v (c_div, unop, binop, simple_escapes) is regenerated
+                 from the source by c09_regen.py; lit_value (literal scanning, no regular expression: str.rstrip / int())
+                 is hand-written and tied by this run
+     [tie-spec]  "C09.Spec.c_eval vs gcc"                          the C semantics against gcc on every generated tree
+   (the regular expression _r_int_literal of the '#define' path is modelled and tied in C30: [tie-macro] there) *)
+
 (* _c_div is C's division (truncation toward zero), for every a and every b <> 0; b = 0 is a CDefError *)
+(* [tie-eval: regenerated] *)
 Theorem C09_c_div_is_quot : forall a b, b <> 0 -> c_div a b = Ok (Z.quot a b).
 Proof. exact c_div_quot. Qed.
 Print Assumptions C09_c_div_is_quot.
 
+(* [tie-eval: regenerated] *)
 Theorem C09_c_div_zero : forall a, c_div a 0 = Err CDefError.
 Proof. exact c_div_zero. Qed.
 Print Assumptions C09_c_div_zero.
 
 (* the '%' branch  left - _c_div(left, right) * right  is C's remainder *)
+(* [tie-eval: regenerated] *)
 Theorem C09_rem_law : forall a b, b <> 0 -> binop "%" a b = Some (Ok (Z.rem a b)).
 Proof. exact c_rem. Qed.
 Print Assumptions C09_rem_law.
 
 (* every literal the C rules give a value to is either given the same value by cffi, or refused with
    CDefError (multi-digit octal and hex escapes) -- never another value, never another exception *)
+(* [tie-eval] [tie-spec] *)
 Theorem C09_literals : forall s t v, c_literal s = Some (t, v) ->
   lit_value s = Ok v \/ lit_value s = Err CDefError.
 Proof. exact literal_agree. Qed.
 Print Assumptions C09_literals.
 
+(* [tie-eval] [tie-spec] *)
 Theorem C09_number_literals : forall s t v, number_literal s = Some (t, v) -> lit_value s = Ok v.
 Proof. exact number_literal_agree. Qed.
 Print Assumptions C09_number_literals.
@@ -41,6 +53,7 @@ Print Assumptions C09_number_literals.
    constants of one (possibly escaped: simple escape or one octal digit) character, unary + - and the ten
    binary operators, whose C evaluation is defined and in which no conversion changes a value and no
    unsigned operation wraps, is accepted by cffi and evaluates to the C value. *)
+(* [tie-eval] [tie-spec] *)
 Theorem C09_accepted_with_C_value_partial : forall cenv env e t v, env_agree cenv env -> supported e ->
   c_eval cenv e = Some (t, v, true) -> py_eval env e = Ok v.
 Proof. exact agree_accepted. Qed.
@@ -49,17 +62,20 @@ Print Assumptions C09_accepted_with_C_value_partial.
 (* Without the restriction on character constants: the only other outcome is a refusal with CDefError, and
    (C09_literals_strong) that happens only for character constants longer than 'c' / '\e' (multi-digit octal
    and hex escapes), which C defines and cffi does not support. *)
+(* [tie-eval] [tie-spec] *)
 Theorem C09_agree_partial : forall cenv env e t v, env_agree cenv env -> c_eval cenv e = Some (t, v, true) ->
   py_eval env e = Ok v \/ py_eval env e = Err CDefError.
 Proof. exact agree_exact. Qed.
 Print Assumptions C09_agree_partial.
 
+(* [tie-eval] [tie-spec] *)
 Theorem C09_literals_strong : forall s t v, c_literal s = Some (t, v) ->
   lit_value s = Ok v \/ (lit_value s = Err CDefError /\ (5 <= length s)%nat /\ hd 0%N s = 39%N).
 Proof. exact literal_agree_strong. Qed.
 Print Assumptions C09_literals_strong.
 
 (* ... in the words of the property: an accepted expression of that class has the C value *)
+(* [tie-eval] [tie-spec] *)
 Theorem C09_accepted_value_partial : forall cenv env e t v v', env_agree cenv env ->
   c_eval cenv e = Some (t, v, true) -> py_eval env e = Ok v' -> v' = v.
 Proof.
@@ -95,6 +111,7 @@ Theorem C09_refuted_neg_hex :
 Proof. split; vm_compute; reflexivity. Qed.
 Print Assumptions C09_refuted_neg_hex.
 
+(* [tie-eval] [tie-spec] *)
 Theorem C09_refuted : ~ C09_full_statement.
 Proof.
   intros H. destruct C09_refuted_0u_minus_1 as [A B].
